@@ -4,9 +4,36 @@
 // 1 <= threads <= len, the function is total on the listed buckets, yields a thread id below `threads`, and is a function of its
 // arguments only. Per-thread sequential execution (`&mut self` on the WriterSet owned by one thread) is Rust ownership (trusted: rustc).
 #![allow(unused, dead_code)]
+//@include shims/model_hash.rs CAP=4
+use model_hash::Entry;
+
+// ---- environment (D4) of WriterSet::validate_event_versions: ids are opaque equality tokens; the index lookup is a callee
+// behind a contract (returns the reference state of streams that have no pending entry) ----
+#[derive(Clone, Copy, Debug, PartialEq, Eq, Hash)]
+pub struct Uuid(pub u8);
+#[derive(Clone, Copy, Debug, PartialEq, Eq, Hash)]
+pub struct StreamId(pub u8);
+#[derive(Clone, Copy, Debug)]
+pub struct IndexedState { pub streams: [Option<(Uuid, u64)>; 3] }
+impl WriterSet {
+    /// contract of the open/closed stream-index lookup: the latest indexed (synced) version of the stream, if any
+    pub fn read_stream_latest_version(&self, stream_id: &StreamId) -> Result<Option<StreamLatestVersion>, WriteError> {
+        Ok(self.indexed.streams[(stream_id.0 % 3) as usize].map(|(partition_key, version)| StreamLatestVersion { partition_key, version }))
+    }
+}
 
 //@item BucketId
+//@item PartitionId
 //@item bucket_id_to_thread_id
+//@item ExpectedVersion
+//@item CurrentVersion
+//@item StreamLatestVersion
+//@item NewEvent
+//@item PendingIndex
+//@item EventValidationError
+//@item WriteError
+//@item WriterSet
+//@item WriterSet::validate_event_versions
 
 #[cfg(kani)]
 mod verif {
@@ -60,5 +87,74 @@ mod verif {
         let base = len / threads as usize;
         assert!(cnt == base || cnt == base + 1, "balanced");
         assert!(cnt >= 1, "every writer thread owns at least one bucket");
+    }
+
+    // ------------------------------------------------------------------ validate_event_versions (C02)
+    fn any_ev() -> ExpectedVersion {
+        match kani::any::<u8>() & 3 { 0 => ExpectedVersion::Any, 1 => ExpectedVersion::Exists, 2 => ExpectedVersion::Empty, _ => ExpectedVersion::Exact(kani::any()) }
+    }
+    fn accepts(e: ExpectedVersion, c: Option<u64>) -> bool {
+        match e { ExpectedVersion::Any => true, ExpectedVersion::Exists => c.is_some(), ExpectedVersion::Empty => c.is_none(), ExpectedVersion::Exact(v) => c == Some(v) }
+    }
+    fn pending(stream: u8, key: u8, version: u64) -> PendingIndex {
+        PendingIndex { event_id: Uuid(0), partition_key: Uuid(key), partition_id: 0, partition_sequence: 0, stream_id: StreamId(stream), stream_version: version, offset: 0 }
+    }
+
+    /// For an arbitrary reference state (indexed streams + up to 2 pending appends) and a transaction of up to 2 events over up to 3
+    /// streams: Ok iff every expectation holds against the stream state EXTENDED by the earlier events of the same transaction and
+    /// every touched stream has the transaction's partition key; the returned versions are the versions each event saw.
+    #[kani::proof]
+    #[kani::unwind(6)]
+    fn ws_validate_event_versions() {
+        let indexed = IndexedState { streams: [
+            if kani::any() { Some((Uuid(kani::any::<u8>() % 2), kani::any())) } else { None },
+            if kani::any() { Some((Uuid(kani::any::<u8>() % 2), kani::any())) } else { None },
+            if kani::any() { Some((Uuid(kani::any::<u8>() % 2), kani::any())) } else { None } ] };
+        let np: usize = kani::any();
+        kani::assume(np <= 2);
+        let mut pend = Vec::new();
+        // pending entries continue the indexed state of their stream (writer invariant)
+        let (ps0, ps1): (u8, u8) = (kani::any::<u8>() % 3, kani::any::<u8>() % 3);
+        let (pk0, pk1): (u8, u8) = (kani::any::<u8>() % 2, kani::any::<u8>() % 2);
+        let (pv0, pv1): (u64, u64) = (kani::any(), kani::any());
+        kani::assume(pv0 < u64::MAX - 4 && pv1 < u64::MAX - 4);
+        if np > 0 { pend.push(pending(ps0, pk0, pv0)); }
+        if np > 1 { pend.push(pending(ps1, pk1, pv1)); }
+        let ws = WriterSet { pending_indexes: pend, indexed };
+        // reference: latest (key, version) of a stream = last pending entry for it, else the indexed one
+        let reference = |s: u8| -> Option<(Uuid, u64)> {
+            if np > 1 && ps1 == s { Some((Uuid(pk1), pv1)) } else if np > 0 && ps0 == s { Some((Uuid(pk0), pv0)) } else { indexed.streams[s as usize] }
+        };
+        kani::assume(indexed.streams.iter().all(|x| x.map(|(_, v)| v < u64::MAX - 4).unwrap_or(true)));
+        let key = Uuid(kani::any::<u8>() % 2);
+        let n: usize = kani::any();
+        kani::assume(n >= 1 && n <= 2);
+        let e0 = NewEvent { stream_id: StreamId(kani::any::<u8>() % 3), stream_version: any_ev() };
+        let e1 = NewEvent { stream_id: StreamId(kani::any::<u8>() % 3), stream_version: any_ev() };
+        let events = [e0.clone(), e1.clone()];
+        let r = ws.validate_event_versions(key, &events[..n]);
+        // model walk
+        let s0 = e0.stream_id.0;
+        let c0 = reference(s0);
+        let key_ok0 = c0.map(|(k, _)| k == key).unwrap_or(true);
+        let ok0 = key_ok0 && accepts(e0.stream_version, c0.map(|(_, v)| v));
+        let after0 = c0.map(|(_, v)| v + 1).unwrap_or(0); // version the first event gets
+        let s1 = e1.stream_id.0;
+        let c1: Option<(Uuid, u64)> = if s1 == s0 { Some((key, after0)) } else { reference(s1) };
+        let key_ok1 = c1.map(|(k, _)| k == key).unwrap_or(true);
+        let ok1 = key_ok1 && accepts(e1.stream_version, c1.map(|(_, v)| v));
+        let expect_ok = ok0 && (n < 2 || ok1);
+        match r {
+            Ok(v) => {
+                assert!(expect_ok, "accepted only if every expectation holds (incl. earlier events of the same transaction) and the partition key matches");
+                assert!(v.len() == n);
+                assert!(v[0] == match c0 { Some((_, x)) => CurrentVersion::Current(x), None => CurrentVersion::Empty }, "first event saw the stream's current version");
+                if n == 2 { assert!(v[1] == match c1 { Some((_, x)) => CurrentVersion::Current(x), None => CurrentVersion::Empty }, "second event saw the state extended by the first"); }
+            }
+            Err(WriteError::Validation(EventValidationError::PartitionKeyMismatch { .. })) => { assert!(!key_ok0 || (n == 2 && ok0 && !key_ok1), "key mismatch reported only for a stream stored under another partition key"); }
+            Err(WriteError::WrongExpectedVersion { .. }) => { assert!(!expect_ok, "a transaction whose every expectation holds is never rejected"); }
+            Err(_) => { assert!(false, "no other rejection"); }
+        }
+        kani::cover!(n == 2 && s0 == s1 && expect_ok, "reachable: two accepted events on one stream");
     }
 }
